@@ -53,7 +53,12 @@ func (e *signhistEngine) Gen(seed uint64, tier string, run int) *Trace {
 	c.Instant = t.Format(time.RFC3339)
 	// swarm: key subset of this run (keeps collisions and repeats frequent)
 	var keys []int
-	switch r.Intn(6) {
+	switch r.Intn(8) {
+	case 6, 7:
+		keys = []int{10 + r.Intn(8), 10 + r.Intn(8), 10 + r.Intn(8)} // certificate lengths 796..803: every entry length modulo 8
+		if r.Chance(1, 10) {
+			keys[0] = 18 // a signature blob beyond 65535 bytes
+		}
 	case 5:
 		keys = []int{8, 9, 0} // CA-issued leaves (issuer != subject; same issuer, different serials)
 	case 0:
